@@ -177,6 +177,9 @@ type connScript struct {
 	// connectMs > 0: NewConnection gets a context that expires after so many milliseconds, and the client
 	// starts sending only after that moment (a connect timeout must not outlive the connect).
 	connectMs int
+	// senders > 1: the client packets are handed to Send by that many goroutines at once (packet i by
+	// goroutine i mod senders); the server must receive every packet intact, in any order.
+	senders int
 }
 
 func (s *connScript) String() string {
@@ -187,6 +190,9 @@ func (s *connScript) String() string {
 		if f.pong {
 			sb.WriteString(" (pong)")
 		}
+	}
+	if s.senders > 1 {
+		fmt.Fprintf(&sb, "; %d goroutines send concurrently", s.senders)
 	}
 	if s.connectMs > 0 {
 		fmt.Fprintf(&sb, "; connect context expires after %d ms, client traffic starts after that", s.connectMs)
@@ -239,6 +245,11 @@ func drawConnScript(c *core.Ctx, big bool) *connScript {
 		}
 	}
 	s.plan = drawPlan(c, s.layout, true)
+	s.senders = 1
+	if len(s.client) >= 2 && rare(c, "senders", 4) {
+		s.senders = c.Range("senders.n", 2, 4)
+		c.Class("concurrent senders on one connection")
+	}
 	if s.plan.Fault.Kind == adnlsrv.FaultNone && len(s.client) > 0 && rare(c, "connect.deadline", 5) {
 		s.connectMs = c.Range("connect.ms", 250, 700)
 		c.Class("connection used after the deadline of its connect context")
@@ -417,22 +428,36 @@ func runConn(s *connScript) (err error) {
 	defer func() { close(stop); <-consumerDone }()
 	gotCount := func() int { gmu.Lock(); defer gmu.Unlock(); return len(got) }
 
+	var sendMu sync.Mutex
 	var sendErr error
 	sendAt := -1
 	senderDone := make(chan struct{})
-	go func() {
-		defer close(senderDone)
-		for i, p := range s.client {
-			pk, e := liteclient.NewPacket(append([]byte{}, p...))
-			if e == nil {
-				e = conn.Send(pk)
+	nSenders := s.senders
+	if nSenders < 1 {
+		nSenders = 1
+	}
+	var sendWG sync.WaitGroup
+	for g := 0; g < nSenders; g++ {
+		sendWG.Add(1)
+		go func(g int) {
+			defer sendWG.Done()
+			for i := g; i < len(s.client); i += nSenders {
+				pk, e := liteclient.NewPacket(append([]byte{}, s.client[i]...))
+				if e == nil {
+					e = conn.Send(pk)
+				}
+				if e != nil {
+					sendMu.Lock()
+					if sendErr == nil {
+						sendErr, sendAt = e, i
+					}
+					sendMu.Unlock()
+					return
+				}
 			}
-			if e != nil {
-				sendErr, sendAt = e, i
-				return
-			}
-		}
-	}()
+		}(g)
+	}
+	go func() { sendWG.Wait(); close(senderDone) }()
 
 	deadline := time.Now().Add(waitLimit)
 	waitFor := func(cond func() bool) bool {
@@ -482,12 +507,26 @@ func runConn(s *connScript) (err error) {
 	received := append([][]byte{}, ss.received...)
 	rerr, werr := ss.readErr, ss.writeErr
 	ss.mu.Unlock()
-	for i, p := range received {
-		if i >= len(s.client) {
-			return report("the server received a packet the client never sent: #%d %s", i, describe(p))
+	if nSenders > 1 {
+		// any order: compare as multisets
+		left := map[string]int{}
+		for _, p := range s.client {
+			left[string(p)]++
 		}
-		if !bytes.Equal(p, s.client[i]) {
-			return report("client packet %d arrived at the server as %s, sent %s", i, describe(p), describe(s.client[i]))
+		for i, p := range received {
+			if left[string(p)] == 0 {
+				return report("with %d goroutines sending at once the server received packet #%d = %s, which no goroutine sent (or more often than it was sent)", nSenders, i, describe(p))
+			}
+			left[string(p)]--
+		}
+	} else {
+		for i, p := range received {
+			if i >= len(s.client) {
+				return report("the server received a packet the client never sent: #%d %s", i, describe(p))
+			}
+			if !bytes.Equal(p, s.client[i]) {
+				return report("client packet %d arrived at the server as %s, sent %s", i, describe(p), describe(s.client[i]))
+			}
 		}
 	}
 	if !faulty && rerr != nil {
